@@ -1,5 +1,5 @@
 """Shared orchestration of C09 and C10 (spec/Meta.tla, MetaMC.tla, MetaTrace.tla; harness/cmd/meta)."""
-import os, json
+import os, json, re
 from vlib import common
 
 SPECS = ["MetaMC", "MetaTrace"]
@@ -14,12 +14,39 @@ def run_driver(ctx, cases, name, jobs=None, timeout=1500, case_timeout="8s"):
     inp = os.path.join(ctx.tmp, "%s-in.ndjson" % name)
     out = os.path.join(ctx.tmp, "%s-out.ndjson" % name)
     common.write_ndjson(inp, cases)
-    ctx.run([drv, "-in", inp, "-out", out, "-j", str(jobs or min(12, common.NCPU)), "-case-timeout", case_timeout],
-            timeout=timeout)
+    state = os.path.join(ctx.tmp, "%s-state" % name)     # crash-class budget shared by the workers (budget.go)
+    os.makedirs(state, exist_ok=True)
+    ctx.run([drv, "-in", inp, "-out", out, "-j", str(jobs or min(12, common.NCPU)), "-case-timeout", case_timeout,
+             "-state", state], timeout=timeout)
     results = common.read_ndjson(out)
     if len(results) != len(cases):
         raise common.Infra("driver returned %d results for %d cases" % (len(results), len(cases)))
     return results
+
+
+def cycle_frame(detail, default):
+    """For a stack exhaustion the frame on top is wherever the stack happened to run out; the defect is the
+    cycle: the first SDK function that occurs twice in the (head of the) goroutine dump."""
+    seen = []
+    for line in detail.splitlines():
+        if not line.startswith("go.flow.arcalot.io/pluginsdk/"):
+            continue
+        fn = line[len("go.flow.arcalot.io/pluginsdk/"):]
+        depth = 0
+        cut = len(fn)
+        for i in range(len(fn) - 1, -1, -1):        # cut the argument list: the parenthesis matching the last one
+            if fn[i] == ")":
+                depth += 1
+            elif fn[i] == "(":
+                depth -= 1
+                if depth == 0:
+                    cut = i
+                    break
+        fn = re.sub(r"\[[^\]]*\]", "", fn[:cut])
+        if fn in seen:
+            return "cycle:" + fn
+        seen.append(fn)
+    return default
 
 
 def mutation_class(sig):
@@ -39,15 +66,23 @@ def consume(ctx, cases, results, stats):
             # the worker died (fatal error, e.g. stack exhaustion) or hung on this case: nothing a
             # description or a generated schema may cause
             # "hang": an operation on the loaded schema did not return within the per-case bound (confirmed by two
-            # reruns with twice the bound); "died": fatal error such as stack exhaustion
+            # reruns with twice the bound); "died": fatal error - stack exhaustion of a runaway recursion is named
+            # as such, with the topmost SDK frame
             labels = case.get("labels") or []
             mut = "multiple" if len(labels) > 1 else (labels[0] if labels else
                                                        ("grammar_free" if case.get("grammar_free") else "none"))
-            ctx.violation(dict(stage="first_use", kind="hang" if res["crash"] == "hang" else "fatal", mutation=mut,
-                               via="any", frame=res.get("frame", "")),
+            detail = res.get("detail", "")
+            kind = "hang" if res["crash"] == "hang" else ("stack_overflow" if "stack overflow" in detail else "fatal")
+            frame = res.get("frame", "")
+            if kind == "stack_overflow":
+                frame = cycle_frame(detail, frame)
+            ctx.violation(dict(stage="first_use", kind=kind, mutation=mut, via="any", frame=frame),
                           dict(case=case, crash=res["crash"], detail=res.get("detail", "")[:3000]))
             continue
         r = res["res"]
+        if r.get("skipped"):
+            stats["skipped_crash_class_over_limit"] = stats.get("skipped_crash_class_over_limit", 0) + 1
+            continue
         if r.get("harness_error") or r.get("harness_panic"):
             raise common.Infra("harness failure on %s: %s" % (json.dumps(case)[:300], r))
         if r.get("bind_error"):
